@@ -44,6 +44,46 @@ CHECKS = {
     text="to_state/to_map round trips on every valid map (N<=2, all rank arguments) are compared at representation level and against 'apply the map to |0..0>'; constructors (zero, one, GHZ, mixed, random bit/product/Clifford) N<=5 against the TLA+ constants grounded in matrices; dense to_qutip exports entry-wise against the sum of group-element matrices; stabilizer_state() on every ordered signed sub-list of stabilizer halves in four input formats, anticommuting lists must raise ValueError. Both packages; TLC judges every record.",
     note="Dense exports are rounded to integers within 1e-5 after scaling by 2^N (float rounding is outside the model).",
     design="4/C12", technique="TLA+ constructor/duality semantics (TLC) + replay over all maps and stabilizer lists, trace validated by TLC"),
+ "C09": dict(
+    text="TLC enumerates every gate program of at most 3 (quick) / 4 (thorough) items over a 14-gate alphabet on N=3 (named, generator, forward-map, backward-map-only, two-map, local and global gates), packs each with a transcription of take() and proves the packing legal, layer order = program order as a map, and locality; the driver rebuilds each program in both circuit classes x {uncompiled, layers compiled, circuit compiled} x {original, copy, composed halves} (both packages), records the layer layout and the forward / gate-by-gate images of map, phased-list and signed-state probes; TLC judges layout legality (any legal packing accepted) and forward = sequential application.",
+    note="Programs longer than 4 are not enumerated. Quick rotates 3 of the 12 configurations per program.",
+    design="4/C09", technique="TLA+ circuit-program model with transcribed take() (TLC exhaustive) + replay of every program/configuration, layouts and probe images validated by TLC"),
+ "C10": dict(
+    text="Same programs and configurations as C09: TLC proves on the model that backward inverts forward (both orders) and compiled inverse = inverse of compiled forward; on the code, forward-then-backward and backward-then-forward must return map, list (all four phases) and signed rank-1 state probes bitwise, and backward alone must equal the inverse gates in reverse order; judged by TLC.",
+    note="As C09.",
+    design="4/C10", technique="TLA+ circuit-program model (TLC) + replay with round-trip probes, trace validated by TLC"),
+ "C13": dict(
+    text="Same-named kernels of the two utils.py and the shared class methods are called with identical well-formed inputs (valid maps and tableaux emitted by TLC for N<=2, TLC-simulated N=3,4; Pauli lists; masks; binary matrices; identical coin outcomes for measurement); normalised return values are paired per call and TLC requires equality (an exception on one side only is a disagreement). Every family is additionally judged against the semantics in both packages by the other checks (C01-C04, C07-C10, C12, C15, C16, C18, C20 run with the torch backend).",
+    note="Relational property: the TLA+ part is the pairing invariant plus the per-package trace specifications. Functions existing in one package only are outside the property. Three open findings (torch measure, torch pivot order, pyclifford trace phase).",
+    design="4/C13", technique="TLA+ trace specification over paired records (TLC) + both packages validated against the same specifications"),
+ "C14": dict(
+    text="Programs interleaving gates and measurement layers (MC_Circuit alphabet incl. Mz[1], Mz[2,3], length <=3 quick / <=4 thorough) are run through Circuit on zero/GHZ/mixed/TLC-simulated inputs under several coin schedules; TLC replays the recorded outcomes through the sequential semantics (gates by Forward, Mz by SemMeasureList): outcomes possible, +1/-1 in order, log2prob accumulated, state and rank as direct measurements, layout legal (no gate crosses a measurement). backward with the circuit's own record, the same record, every single-bit corruption and wrong lengths: adjoint trajectory or ValueError exactly when impossible. Direct MeasureLayer calls; postselect on every pure N<=2 tableau x signed Pauli x outcome (probability, projected state, unchanged when impossible, refusal on mixed).",
+    note="Backward/post-selection only on pure states (documented refusal otherwise).",
+    design="4/C14", technique="TLA+ trajectory semantics over the circuit-program model (TLC) + replay with recorded outcome records, trace validated by TLC"),
+ "C15": dict(
+    text="PauliPoly (sums, products, scalars, traces, equality of denotations) is grounded by TLC in 4x4 Gaussian-integer matrices; a typed stack machine enumerates every well-typed expression with at most two binary operators plus unary wrappers over a 13-element operand pool (Pauli, monomial, polynomial with repeated strings and all phases, list, numbers); each arithmetic step is executed with the real operators and judged by TLC on exact denotations (+, -, @, number*, /number, neg, reduce incl. explicit tolerances, trace, copy, rotation linearity, dense export), operands must be unchanged; both packages.",
+    note="Open finding D5 (pyclifford trace ignores the phase) is suppressed by a TLC-evaluated classifier (KF_TracePhase). Float rounding outside the model.",
+    design="4/C15", technique="TLA+ polynomial algebra grounded in matrices + typed expression machine (TLC exhaustive) + replay, every step validated by TLC"),
+ "C16": dict(
+    text="Every sampled map/state (random_clifford/pauli map and state, random_bit_state, brick-wall/on-site/global random circuits forward, backward and povm) is judged valid by TLC (ValidMap / TableauOK) for N<=6 (8); distribution: over fixed seed blocks all 24 signed one-qubit maps, all 720 N=2 symplectic classes (sample space enumerated by the TLC group walk), 16 sign patterns, 6^N Pauli-map tables must be reached with chi-square within 8 sigma, sign bits and measurement coins fair within 8 sigma, map-less gates resample per call and refuse compile; both packages.",
+    note="Frequencies are statistical (fixed seeds derived from VERIF_SEED, so reproducible); supports are exact. Tally arithmetic in the harness, acceptance region in TraceC16.tla.",
+    design="4/C16", technique="TLA+ validity predicates and acceptance region (TLC) over sampled objects and fixed-seed tallies"),
+ "C17": dict(
+    text="Heap.tla models object slots, buffers and modifies-sets (query / in place on receiver / in place on argument / copy / poke) and TLC enumerates all histories of length 5 over three slots; for every object kind (Pauli, list, monomial, polynomial, map, state, gate, layer, both circuit classes) every public method is called with whole-heap snapshots before/after (receiver, argument, bystanders bitwise), copies are compared, tested for shared buffers and poked on either side, and sampled TLC histories are replayed; TLC judges the frame conditions; both packages.",
+    note="Lazily derived maps / recorded results of gates, layers, circuits are masked when unset before the call. compose() legitimately shares gate objects.",
+    design="4/C17", technique="TLA+ heap/modifies-set model (TLC exhaustive histories) + whole-heap snapshot traces validated by TLC"),
+ "C18": dict(
+    text="Postconditions only: for every non-identity string x sign x target qubit x causal flag (N<=3, N=4 thorough/sampled) TLC applies the recorded rotation gates of diagonalize() itself and checks +-Z on the target, causality (only qubits >= i0 touched, earlier generators fixed, restricted operator diagonalised); diagonalize(state) must decode to |0..0> and re-encode; pauli_diagonalize2 on all partner pairs of valid maps; front/condense/onsite kernels; SBRG: heff only I/Z strings, and for commuting Hamiltonians the circuit maps H exactly onto heff (exact dyadic coefficients); both packages where the API exists.",
+    note="SBRG exactness only claimed for commuting terms, as the property states.",
+    design="4/C18", technique="TLA+ postconditions over recorded circuits (Circuit!Forward evaluated by TLC) on exhaustive small inputs"),
+ "C19": dict(
+    text="sample(): every sampled operator must be an element of the signed stabilizer group (TLC, StabSem!Grp) for all N<=2 tableaux and TLC-simulated N=3..5, uniformity by fixed-seed tallies (all elements reached, chi-square within 8 sigma); density_matrix: every group element exactly once with weight 2^-N up to N-r=10; binary_repr for all widths <=10; ClassicalShadow snapshots through a recording proxy circuit: valid, non-zero overlap, stabilised up to sign by the back-evolved basis, equal to the base measured in that basis for some outcomes, base untouched.",
+    note="pyclifford only (the anchors are pyclifford files).",
+    design="4/C19", technique="TLA+ group-membership / measurement semantics (TLC) over recorded samples, expansions and snapshots"),
+ "C20": dict(
+    text="PauliSyntax.tla defines Parse / Print / Tokenize over token sequences; TLC proves for all operators N<=3 that every description (all prefix forms, code arrays with the phase code first, last or in the middle, repr and token formats) parses to the operator and that the token polynomial of pauli_tokenize equals the table; every description of every operator is replayed into pauli() as str / character list / list / tuple / array / dict, repr and tokenize outputs are compared exactly and re-parsed, lists: construction, L/N/len/weight, selection by int / slice / mask / index array, negation and multiplication by 1,-1,i,-i; both packages.",
+    note="Exhaustive for N<=3 descriptions; list/index expressions are seeded samples.",
+    design="4/C20", technique="TLA+ syntax specification with round-trip theorems (TLC) + exhaustive replay of descriptions, trace validated by TLC"),
 }
 
 def main():
